@@ -404,6 +404,11 @@ def run(ctx):
     if not res.ok and mon_hits == 0:
         ctx.violation("Coq obligations of C09 do not check: %s" % (res.failed[:2],), {"theorem": [f[2] for f in res.failed], "errors": res.failed[:3]}, no_input=True)
 
+    if big and res.ok:
+        rc, out = vcheck.coqchk("LV.Properties.Properties_C09")
+        ctx.coverage["coqchk"] = "ok" if rc == 0 else ("rc=%d: %s" % (rc, out[-300:]))
+        if rc != 0:
+            ctx.violation("coqchk rejects LV.Properties.Properties_C09", {"theorem": "Properties_C09", "coqchk": out[-1500:]}, no_input=True)
     step_keys = [k for k in stats if k.startswith("step_")]
     evals = sum(s["n"] for s in stats.values())
     shapes = set(); nontriv = set()
